@@ -27,7 +27,7 @@ pub fn c16_plan() -> Plan {
         profiles: vec![p, single],
         directed: vec![],
         quick_histories: 400,
-        thorough_histories: 40_000,
+        thorough_histories: 160_000,
         s5: None,
         enumerate_session_end: None,
         enumerate_symbols: None,
@@ -60,7 +60,7 @@ pub fn c19_plan() -> Plan {
         profiles: vec![p, three, one],
         directed: vec![],
         quick_histories: 400,
-        thorough_histories: 40_000,
+        thorough_histories: 160_000,
         s5: None,
         enumerate_session_end: None,
         enumerate_symbols: None,
